@@ -10,6 +10,12 @@ TRUST = ("Trusted base: Go 1.26.8 standard library (the shipped binary uses 1.23
 
 # id -> (level, text, design_ref, technique)
 CLAIMED = {
+    "C01": ("exploration",
+            "Seeded deterministic simulation: raw scripted clients send generated HTTP/1.x requests (any method/form/path escapes/header multiset incl. Connection-nominated and repeated names/Via and X-Forwarded chains/body framing and sizes around 4 KiB and 32 KiB, pipelined, at every position of a keep-alive connection) through the real proxy (direct, via upstream proxy, inside MITM) to a scripted next hop that records raw bytes; an independent RFC 9112 parser plus a reference model of exactly the documented differences decides equality. Segmentation/interleaving of all byte streams come from the seed.",
+            "DESIGN.md 4 C01", "deterministic simulation + reference model of the documented request transformation, independent HTTP/1 parser on recorded wire bytes"),
+    "C02": ("exploration",
+            "Same simulated world with generated origin responses (status incl. 204/205/304, reason, repeated/mixed-case/hop-by-hop fields, Content-Length/chunked/close-delimited bodies, trailers, illegal bodies on bodiless replies, gzip solicited by proxy or by client, event streams) crossed with client protocol 1.0/1.1, pipelining and Connection: close. A strict client-side parser must consume exactly response k for request k (token attribution), content must equal the origin's, and at scheduler-chosen pause points (network drained, zero simulated time elapsed) the client must already hold every chunk/event the origin has sent.",
+            "DESIGN.md 4 C02", "deterministic simulation + strict client-side framing parser, token attribution, quiescence-based incremental-delivery check"),
     "C03": ("exploration",
             "Seeded deterministic simulation of the real proxy between scripted raw-byte endpoints: every byte of both tunnel directions is a pure function of (stream, offset), so loss, duplication, reordering, truncation, missing EOF and leaked proxy sockets are exact facts; segmentation, interleaving, link capacity (back-pressure), coalescing of head/reply with payload, half-close order and RST faults are drawn from the seed. Right level: the property quantifies over schedules and segmentations, which sampling with replay reaches and tests cannot.",
             "DESIGN.md 4 C03", "deterministic simulation (seeded scheduler over in-memory TCP, fake clock) + byte-stream ledger oracle"),
